@@ -88,7 +88,14 @@ class History:
         out = []
         for m in self.pool:
             try:
-                out.append(O.text(m.obj) + " #" + fingerprint(m.obj))
+                fp = fingerprint(m.obj)  # before toJson: see fingerprint()
+                txt = O.text(m.obj)
+                fp2 = fingerprint(m.obj)
+                self.count("read_idempotence_checked")
+                if fp2 != fp:
+                    # serialising is a pure read; it must not be the thing that changes the raw attributes
+                    self.fail("toJson() changed the raw state of member %s: %s -> %s" % (m.tag, _first_diff(fp, fp2), _first_diff(fp2, fp)), op="toJson (observation)")
+                out.append(txt + " #" + fp2)
             except Exception as e:  # noqa: BLE001
                 out.append("<toJson raised %s>" % type(e).__name__)
         return out
@@ -403,6 +410,12 @@ class History:
 # bookkeeping invariants on (spec, document fragment)
 
 
+def _first_diff(a, b):
+    """The part of fingerprint a around the first position where it differs from b."""
+    n = next((j for j, (x, y) in enumerate(zip(a, b)) if x != y), min(len(a), len(b)))
+    return a[max(0, n - 40) : n + 40]
+
+
 def fingerprint(obj, depth=0):
     """Identity-free structural fingerprint of a real tree: kinds, key sets with their types, lengths."""
     if obj is None or depth > 8:
@@ -410,6 +423,12 @@ def fingerprint(obj, depth=0):
     k = type(obj).__mro__[0].__name__
     d = getattr(obj, "__dict__", {})
     parts = [k]
+    # the raw numeric attributes, read from __dict__ without going through any property getter: a getter that
+    # "repairs" the state it reads (and toJson calls the getters) would otherwise hide its own write
+    for name in sorted(d):
+        v = d[name]
+        if not name.startswith("_") and isinstance(v, (int, float)) and not isinstance(v, bool):
+            parts.append("%s=%r" % (name, float(v)))
     for name in ("bins", "pairs", "values"):
         v = d.get(name)
         if isinstance(v, dict):
